@@ -11,6 +11,9 @@ GROUPS.append(Group(name="C06/check_range", unity="C06/u_range.cpp", entry="h_ch
                     checks=["--bounds-check", "--pointer-check"], timeout=200))
 GROUPS.append(Group(name="C06/get_reg_number[bounded]", unity="C06/u_range.cpp", entry="h_get_reg_number", functions=[("get_reg_number", "asm/common.cpp", "harness, unwinding 13")],
                     unwind=13, checks=["--bounds-check", "--pointer-check", "--signed-overflow-check"], timeout=300, bounded="strings of at most 11 characters (every 32-bit decimal), all characters symbolic"))
+GROUPS.append(Group(name="C06/riscv.get_operands.mem", unity="C06/u_riscv_ops.cpp", entry="h_riscv_ops",
+                    functions=[("get_operands", "asm/riscv.cpp", "harness (token-script contract), all 32-bit offsets, all registers"), ("get_x_register_riscv, get_register_number", "asm/riscv.cpp", "real callees")],
+                    unwind=40, checks=["--bounds-check", "--pointer-check"], timeout=900))
 LEVEL = "proof"
 TRUSTED = _c01.TRUSTED
 MANIFEST = {
